@@ -137,6 +137,8 @@ pub struct Params {
     pub max_devs: usize,
     pub threads: usize,
     pub budget_s: f64,
+    /// resident-set cap of the engine process (exploration stops and reports a cap)
+    pub max_rss_bytes: usize,
     /// which properties' violations count (bit p)
     pub prop_mask: u32,
     pub slab_bytes: usize,
@@ -214,6 +216,7 @@ struct Shared<'a, M: Model> {
     viol_keys: Mutex<HashSet<String>>,
     viol_total: AtomicU64,
     stop: AtomicBool,
+    mem_stop: AtomicBool,
 }
 
 impl<'a, M: Model> Shared<'a, M> {
@@ -359,6 +362,20 @@ impl<'a, M: Model> Shared<'a, M> {
     }
 }
 
+/// Resident set size of this process (Linux), 0 if unknown.
+pub fn rss_bytes() -> usize {
+    let mut buf = [0u8; 128];
+    let n = {
+        use std::io::Read;
+        match std::fs::File::open("/proc/self/statm") {
+            Ok(mut f) => f.read(&mut buf).unwrap_or(0),
+            Err(_) => 0,
+        }
+    };
+    let txt = std::str::from_utf8(&buf[..n]).unwrap_or("");
+    txt.split_whitespace().nth(1).and_then(|x| x.parse::<usize>().ok()).map_or(0, |pages| pages * 4096)
+}
+
 pub fn explore<M: Model>(model: &M, p: &Params) -> Report {
     let t0 = Instant::now();
     let mut rep = Report::default();
@@ -398,6 +415,7 @@ pub fn explore<M: Model>(model: &M, p: &Params) -> Report {
             viol_keys: Mutex::new(viol_keys_all.clone()),
             viol_total: AtomicU64::new(0),
             stop: AtomicBool::new(false),
+            mem_stop: AtomicBool::new(false),
         };
         let cursor = AtomicUsize::new(0);
         let done_items = AtomicU64::new(0);
@@ -418,6 +436,12 @@ pub fn explore<M: Model>(model: &M, p: &Params) -> Report {
                             break;
                         }
                         if t0.elapsed().as_secs_f64() > sh.p.budget_s {
+                            sh.stop.store(true, Ordering::Relaxed);
+                            break;
+                        }
+                        if i % 2048 == 0 && rss_bytes() > sh.p.max_rss_bytes {
+                            // memory cap: stop expanding (reported as a cap, never a verdict)
+                            sh.mem_stop.store(true, Ordering::Relaxed);
                             sh.stop.store(true, Ordering::Relaxed);
                             break;
                         }
@@ -473,6 +497,7 @@ pub fn explore<M: Model>(model: &M, p: &Params) -> Report {
             }
         }
         let stopped = shared.stop.load(Ordering::Relaxed);
+        let mem_stopped = shared.mem_stop.load(Ordering::Relaxed);
         let n_last: u64 = shared.last_keys.iter().map(|m| m.lock().unwrap().len() as u64).sum();
         for mset in shared.last_keys.iter() {
             for k in mset.lock().unwrap().iter() {
@@ -501,7 +526,9 @@ pub fn explore<M: Model>(model: &M, p: &Params) -> Report {
         }
         if stopped {
             rep.partial_level = Some((level + 1, done_items.load(Ordering::Relaxed), frontier.len() as u64));
-            if t0.elapsed().as_secs_f64() > p.budget_s {
+            if mem_stopped {
+                rep.caps_hit.push(format!("memory cap {} MiB hit while expanding level {} ({} of {} states expanded)", p.max_rss_bytes >> 20, level, done_items.load(Ordering::Relaxed), frontier.len()));
+            } else if t0.elapsed().as_secs_f64() > p.budget_s {
                 rep.caps_hit.push(format!("wall budget {}s hit while expanding level {} ({} of {} states expanded)", p.budget_s, level, done_items.load(Ordering::Relaxed), frontier.len()));
             } else {
                 rep.caps_hit.push(format!("exploration stopped at level {} ({} of {} states expanded): the crate wrote outside memory it holds, so this process is no longer trustworthy", level, done_items.load(Ordering::Relaxed), frontier.len()));
